@@ -22,7 +22,7 @@ def cas_monitor(ev):
     return ev.kind == 'call' and ev.fn == 'parsec_atomic_cas_ptr' and ev.args[0].s.lstrip('&').endswith('tdm.monitor')
 
 
-def run(ctx):
+def _run(ctx):
     ctx.explanation = ('Static all-paths clauses on the local termination detector: (a) termination_detected is called only on the success edge of '
                        'CAS(monitor, BUSY, TERMINATING), and inside it callback -> CAS(TERMINATING,TERMINATED) -> OBJ_RELEASE with no use of tp afterwards; '
                        '(b) every write of the monitor word is the initialisation or one of the three legal CAS transitions, and taskpool_state reports TERMINATING as BUSY; '
@@ -225,3 +225,10 @@ def run(ctx):
             else:
                 rd.expect(not incs and not decs and not others, key, loc, '%s: nb_pending_actions changed on a path with no zero crossing of the task count (assumptions: %s)' % (
                     fname, [(a.s, t) for a, t, _ in pi.assumes()]), note='%s: no crossing => nb_pending_actions untouched' % mode)
+
+
+
+def run(ctx):
+    _run(ctx)
+    from rules import whowrites
+    whowrites.thorough(ctx, 'C10')
